@@ -250,6 +250,17 @@ def _prelude_tops(prelude):
     return [("imp", s) if s.startswith("from ") else ("chain", [("leaf", s, ("plain",))]) for s in prelude]
 
 
+def split_chains(nodes):
+    """top level of a script: one ("chain", ...) item per statement - an if with its elif / else, a try with its handlers"""
+    out = []
+    for n in nodes:
+        if n[0] == "block" and n[1] in CONT and out:
+            out[-1][1].append(n)
+        else:
+            out.append(("chain", [n]))
+    return out
+
+
 def rep_leaf(rng, pool):
     t = rng.choice(pool)
     return ("leaf", t, ("rep", canon_spacing(t)))
@@ -291,7 +302,7 @@ def gen_rep_program(rng, maxdepth=2):
     if rng.random() < 0.4:
         tops.append(("def", f"def{M1}fn0({O0}){O0}:", gen_rep_body(rng, pool, 1, maxdepth)))
     for _ in range(rng.randint(1, 3)):
-        tops.append(("chain", gen_rep_body(rng, pool, 0, maxdepth, n=rng.randint(2, 5))))
+        tops += split_chains(gen_rep_body(rng, pool, 0, maxdepth, n=rng.randint(2, 5)))
     if rng.random() < 0.6:
         tops.append(("main", f"while{M1}True{O0}:", gen_rep_body(rng, pool, 1, maxdepth)))
     return tops
@@ -317,13 +328,13 @@ def systematic_rep_programs():
         place = (i // len(wraps)) % 3
         tops = _prelude_tops(REP_PRELUDE)
         if place == 0:
-            tops.append(("chain", w(leafs(sq))))
+            tops += split_chains(w(leafs(sq)))
         elif place == 1:
-            tops.append(("chain", leafs(sq[:1])))
+            tops += split_chains(leafs(sq[:1]))
             tops.append(("main", f"while{M1}True{O0}:", w(leafs(sq))))
         else:
             tops.append(("def", f"def{M1}fn0({O0}){O0}:", w(leafs(sq))))
-            tops.append(("chain", leafs(sq[1:]) + [("leaf", f"fn0({O0})", ("plain",))]))
+            tops += split_chains(leafs(sq[1:]) + [("leaf", f"fn0({O0})", ("plain",))])
         progs.append(tops)
     return progs
 
@@ -439,7 +450,7 @@ def gen_asg_program(rng, maxdepth=3):
     st = _AsgState("s")
     defined = []
     for _ in range(rng.randint(1, 3)):
-        tops.append(("chain", gen_asg_body(rng, st, cnt, 0, maxdepth, defined, n=1)))
+        tops += split_chains(gen_asg_body(rng, st, cnt, 0, maxdepth, defined, n=1))
     if rng.random() < 0.7:
         st = _AsgState("m")
         tops.append(("main", f"while{M1}True{O0}:", gen_asg_body(rng, st, cnt, 1, maxdepth, [], n=rng.randint(1, 3))))
@@ -484,7 +495,7 @@ def systematic_asg_programs(per=8):
         place = (at // per) % 3
         tops = _prelude_tops(PRELUDE)
         if place == 0:
-            tops.append(("chain", chunk))
+            tops += split_chains(chunk)
         elif place == 1:
             tops.append(("main", f"while{M1}True{O0}:", chunk))
         else:
